@@ -40,13 +40,29 @@
     place.run <mode> <request> {' | ' <request>}
         mode := 'seq' | 'nest' | 'par' | 'il:' <rid> {'.' <rid>}
       Request i of the scenario is request id i. `il` lists who performs its next *scheduled* step
-      (creation of the batch context, or a handler access); the library's own `Clear`s are attached
-      to the preceding step of their request. `seq`/`nest`/`par`: the model runs them one after the other
-      (by theorem C15.noninterference every merge gives the same answer).
+      (the call of HandleRequest, or a handler access); the library's own steps (start of the core
+      handler, `Clear`s) are attached to the preceding step of their request. Parent contexts as the
+      harness makes them: `seq` one connection context for all; `nest` request i+1 inside the
+      context of request i's handlers; `par` connection i/3; `il` connection i%2. `seq`/`nest`/
+      `par`: the model runs them one after the other (by theorem C15.noninterference every merge
+      gives the same answer). Evaluated with `Impl.go`.
       → ok <robs> {' | ' <robs>}
         robs := <obs> '~' <vals>     obs as above from `Batch.execFull` (the request alone);
                                      vals := '-' | <val> {'.' <val>} what request i observes in the
                                      world run (`Placeholder.runWorld` on the merge), '!' = panic
+
+    place.world <impl> <mode> <call> {' | ' <call>}
+        impl  := ('F' | 'R' | 'G') <reset> <atEntry> <atCore>    each '0' | '1'; e.g. F010 = Impl.go
+        mode  := 'seq' | 'il:' <rid> {'.' <rid>}
+        call  := <parent> {' > ' <run>}          one call of HandleRequest and the runs of the core
+        parent:= 'c' <nat> | 'i' <rid>           connection context | inside request rid's handlers
+        run   := <wraps> ' ! ' <request>         wraps := number of contexts the middleware derives
+      `il`: scheduled steps are the call of HandleRequest, every invocation of `next` by the message
+      middleware (the derivations of contexts before it are attached to the PRECEDING scheduled step)
+      and every handler access.
+      → ok <vals> {' | ' <vals>}                 what call i observes in the world run under <impl>
+
+    place.resolve <ph> <reqId>   → ok <val> | err         `GetIdOrPlaceholder` (0 = "")
 -/
 import Driver.Common
 import KmipModel.Model.Batch
@@ -198,21 +214,80 @@ private def expandSched : List Nat → List (List Bool) → List Nat
 private def renderWorldObs (os : List Obs) : String :=
   joinOr "." (os.map fun | .val v => toString v | .panic => "!")
 
+/-- the parent context the harness gives request `i` in `mode`. -/
+private def parentFor (mode : String) (i : Nat) : Parent :=
+  if mode = "nest" then (if i = 0 then .conn 0 else .inside (i - 1))
+  else if mode = "par" then .conn (i / 3)
+  else if mode = "seq" then .conn 0
+  else .conn (i % 2)
+
 def placeRun (mode : String) (reqs : List (Srv × Req)) : Option String := do
   let marked := reqs.map fun (srv, req) => markedSteps srv req
   -- the marked view and `Batch.steps` are the same sequence
   if marked.map (·.map (·.1)) ≠ reqs.map (fun (srv, req) => steps srv req) then none
-  let progs := reqs.map fun (srv, req) => prog (steps srv req)
+  let idx := List.range reqs.length
+  let progs := (idx.zip reqs).map fun (i, (srv, req)) => prog1 (parentFor mode i) (steps srv req)
   let sched ←
     if mode = "seq" ∨ mode = "par" ∨ mode = "nest" then some []
     else if mode.startsWith "il:" then
       (parseList (mode.drop 3).toString "." String.toNat?).map fun rs =>
-        expandSched rs (marked.map fun m => true :: m.map (·.2))
+        -- `enter` is scheduled, the `core` step that follows it is the library's
+        expandSched rs (marked.map fun m => true :: false :: m.map (·.2))
     else none
-  let (_, log) := runWorld World.init (mergeBy sched progs)
-  let idx := List.range reqs.length
+  let (_, log) := runWorld Impl.go World.init (mergeBy sched progs)
   let parts := (idx.zip reqs).map fun (i, (srv, req)) =>
     renderObs (execFull srv req).obs ++ "~" ++ renderWorldObs (obsOf i log)
+  pure ("ok " ++ " | ".intercalate parts)
+
+private def parseImpl (s : String) : Option Impl :=
+  match s.toList with
+  | [a, r, e, c] => do
+    let alloc ← match a with
+      | 'F' => some Alloc.fresh | 'R' => some Alloc.reuse | 'G' => some Alloc.global | _ => none
+    let bit : Char → Option Bool := fun ch => if ch = '1' then some true else if ch = '0' then some false else none
+    pure { alloc := alloc, reset := ← bit r, atEntry := ← bit e, atCore := ← bit c }
+  | _ => none
+
+private def parseParent (s : String) : Option Parent :=
+  if s.startsWith "c" then (s.drop 1).toString.toNat?.map .conn
+  else if s.startsWith "i" then (s.drop 1).toString.toNat?.map .inside
+  else none
+
+/-- one call: the parent, and per run (number of derived contexts, request). -/
+private def parseCall (s : String) : Option (Parent × List (Nat × Srv × Req)) :=
+  match s.splitOn " > " with
+  | [] => none
+  | p :: runs => do
+    let p ← parseParent p.trimAscii.toString
+    let runs ← runs.mapM fun r =>
+      match r.splitOn " ! " with
+      | [w, q] => do
+        let w ← w.trimAscii.toString.toNat?
+        let (srv, req) ← parseRequest q.trimAscii.toString
+        pure (w, srv, req)
+      | _ => none
+    pure (p, runs)
+
+/-- the steps of a call marked scheduled / library: `enter` is scheduled; of each run the `core`
+    step is scheduled and the `wrap`s before it are attached to the preceding scheduled step. -/
+private def markedCall (c : Parent × List (Nat × Srv × Req)) : List (GStep × Bool) :=
+  (GStep.enter c.1, true) :: (c.2.map fun (w, srv, req) =>
+    (List.range w).map (fun k => (GStep.wrap k, false)) ++
+      (GStep.core, true) :: (markedSteps srv req).map fun (a, m) => (GStep.act a, m)).flatten
+
+def placeWorld (impl : Impl) (mode : String) (calls : List (Parent × List (Nat × Srv × Req))) :
+    Option String := do
+  let marked := calls.map markedCall
+  let progs := calls.map fun c => prog c.1 (c.2.map fun (w, srv, req) => ⟨List.range w, steps srv req⟩)
+  if marked.map (·.map (·.1)) ≠ progs then none
+  let sched ←
+    if mode = "seq" then some []
+    else if mode.startsWith "il:" then
+      (parseList (mode.drop 3).toString "." String.toNat?).map fun rs =>
+        expandSched rs (marked.map fun m => m.map (·.2))
+    else none
+  let (_, log) := runWorld impl World.init (mergeBy sched progs)
+  let parts := (List.range calls.length).map fun i => renderWorldObs (obsOf i log)
   pure ("ok " ++ " | ".intercalate parts)
 
 def handleBatch (cmd arg : String) : Option String :=
@@ -231,6 +306,22 @@ def handleBatch (cmd arg : String) : Option String :=
     match (rest.splitOn " | ").mapM parseRequest with
     | some reqs => (placeRun mode reqs).getD "bad-op"
     | none => "bad-op"
+  | "place.world" => some <|
+    let (impl, rest) := splitCmd arg
+    let (mode, rest) := splitCmd rest
+    match parseImpl impl, (rest.splitOn " | ").mapM parseCall with
+    | some impl, some calls => (placeWorld impl mode calls).getD "bad-op"
+    | _, _ => "bad-op"
+  | "place.resolve" => some <|
+    match arg.splitOn " " with
+    | [a, b] =>
+      match a.toNat?, b.toNat? with
+      | some ph, some id =>
+        match resolve ph id with
+        | some v => "ok " ++ toString v
+        | none => "err"
+      | _, _ => "bad-op"
+    | _ => "bad-op"
   | _ => none
 
 end Driver
